@@ -207,6 +207,8 @@ def run(ctx):
     d2_commit_counts(ctx, committer, appenders)
     d3_two_file_order(ctx, committer)
     d4_whole_file_rewrites(ctx)
+    from ._shared import inplace_rewrites_truncate
+    inplace_rewrites_truncate(ctx, 'D4')
 
 
 DATA_OWNERS = {
